@@ -186,18 +186,21 @@ pub struct Ins {
     pub imm: Imm,
 }
 
-impl Ins {
-    /// instruction kind for coverage / signatures: name + parameter shape (not its value)
-    pub fn kind(&self) -> String {
-        let n = self.op.name();
-        match (&self.imm, self.op.param_kind()) {
-            (Imm::None, _) => n.to_string(),
-            (Imm::Val(_), ParamKind::Index { .. }) => format!("{n}.n"),
-            (Imm::Val(_), _) => format!("{n}.b"),
-            (Imm::Bits(_), _) => format!("{n}.uN"),
-            (Imm::Err(_), _) => format!("{n}.err"),
-            (Imm::Vals(_), _) => n.to_string(),
-        }
+/// Instruction kind of a token for coverage / signatures: name + parameter shape (not its value),
+/// e.g. `add`, `add.b`, `exp.uN`, `dup`, `dup.n`, `assert.err`, `push`.
+pub fn token_kind(tok: &str) -> String {
+    let (name, rest) = match tok.split_once('.') {
+        Some((n, r)) => (n, Some(r)),
+        None => (tok, None),
+    };
+    let op = Op::from_name(name);
+    match (rest, op) {
+        (None, _) => name.to_string(),
+        (_, Some(Op::Push)) => "push".to_string(),
+        (Some(r), _) if r.starts_with("err=") => format!("{name}.err"),
+        (Some(r), Some(Op::Exp)) if r.starts_with('u') => "exp.uN".to_string(),
+        (_, Some(o)) if matches!(o.param_kind(), ParamKind::Index { .. }) => format!("{name}.n"),
+        _ => format!("{name}.b"),
     }
 }
 
@@ -288,10 +291,14 @@ impl Stack {
             self.0.push(0);
         }
     }
+    /// removes the top element; the depth floor of 16 is re-established at the END of the
+    /// instruction (`step`), because the docs give the stack effect per instruction: `add` on a
+    /// stack of depth 16 (`[b, a, ...] -> [c, ...]`) leaves depth 16, not 17.
     pub fn pop(&mut self) -> u64 {
-        let x = self.0.remove(0);
-        self.fill();
-        x
+        if self.0.is_empty() {
+            return 0;
+        }
+        self.0.remove(0)
     }
     pub fn push(&mut self, x: u64) {
         self.0.insert(0, x);
@@ -474,6 +481,12 @@ impl<'a> ExprParser<'a> {
                         0
                     }
                 }
+            }
+            Some(b'+') | Some(b'-') => {
+                // unary sign: not mentioned in the docs
+                self.i += 1;
+                self.ambiguous = true;
+                self.factor()
             }
             _ => {
                 if self.err.is_none() {
@@ -867,8 +880,15 @@ fn err_code(ins: &Ins) -> u32 {
     }
 }
 
-/// One instruction on the stack, from the instruction reference tables.
+/// One instruction on the stack, from the instruction reference tables. The stack effect is the
+/// one of the whole instruction: depth' = max(16, depth - inputs + outputs).
 pub fn step(st: &mut Stack, ins: &Ins) -> Step {
+    let r = step_inner(st, ins);
+    st.fill();
+    r
+}
+
+fn step_inner(st: &mut Stack, ins: &Ins) -> Step {
     use Op::*;
     match ins.op {
         // ---------------------------------------------------------------- assertions
